@@ -23,4 +23,35 @@ PROPS = {
         "level_text": "Every parse of hostile argv against gate-accepted random command trees is executed under a monitor that records panics (with location), aborts, CPU overruns, unrenderable errors and ignore_errors leaks; 10^6 executions per quick run. Held = none observed; not a proof of totality.",
         "level_note": "Trusted: the generator's reach (feature histogram in evidence), clap's debug assertions as the validity gate. 'Never loops' is restated as bounded progress (< 5 s CPU per parse, 20 s wall watchdog => single-case re-run under RLIMIT_CPU).",
     },
+    "C13": {
+        "engine": "lexmon+miri",
+        "rule": "every byte string over the 12-byte boundary alphabet {- = a 1 . e C3 A9 E2 82 FF 80} up to the length bound "
+                "(enumerated completely, sliced over shards) plus random strings <= 26 bytes (number-shaped, multibyte, invalid), "
+                "each lexed by clap_lex and compared with a byte-level reference (classification consistency, long re-assembly "
+                "and first-`=` split, short-cluster walk, k x next_flag then next_value_os == unread bytes, advance_by, random "
+                "interleavings of iterator calls). Same workload natively, under Miri and under valgrind memcheck. "
+                "distinct_nontrivial = distinct strings lexed by the engine that covered most.",
+        "exhaustive_note": "alphabet^<=L enumerated completely per engine",
+        "assumptions": ["Unix OsStr encoding (bytes); the WTF-8 Windows encoding is not exercised",
+                        "a clean Miri/valgrind run covers only the executions made",
+                        "reference model = prefix tests + std::str::from_utf8 on &[u8]"],
+        "technique": "Miri (UB/out-of-bounds/invalid str interpreter) + valgrind memcheck + byte-level reference-model monitor over exhaustive short strings and random long ones",
+        "level_text": "All five unsafe re-slicing sites of clap_lex are driven by every string of length <= L over a boundary alphabet and by random strings, under Miri (any diagnostic is a violation), valgrind and natively with a byte-level oracle for every public observation.",
+        "level_note": "Trusted: Miri's model of OsStr on Unix; the byte-level reference implementation (prefix tests, from_utf8). Length bound L: native 4 (quick) / 5 (thorough); Miri 2 / 3; valgrind 3 / 4.",
+    },
+    "C14": {
+        "engine": "lexmon+miri",
+        "rule": "OsStrExt: every haystack over the boundary alphabet up to the length bound x 9 needles (-, --, =, a, e-acute, a=, comma, euro, '1.') "
+                "compared with naive window search on bytes (find/contains/starts_with/strip_prefix/split_once/split/try_str); "
+                "RawArgs: op histories (next, next_os, peek, peek_os, is_end, remaining, seek Start/Current/End with offsets "
+                "{0,+-1,+-2,+-3,-4,+-100,i64::MIN,i64::MIN+1,i64::MAX}, insert 0..2 items, cursor clone/compare; two cursors) "
+                "against a (Vec, index) model with uniquely named items: exhaustive over an 8-op alphabet up to length min(L,5) "
+                "on lists of 0..2 items, random histories of length <= 40 beyond. Natively, under Miri and valgrind.",
+        "exhaustive_note": "haystacks alphabet^<=L x 9 needles; cursor histories 8^<=min(L,5) x {0,1,2} items",
+        "assumptions": ["Unix OsStr encoding", "needles are non-empty UTF-8 (the property's premise)",
+                        "a clean Miri/valgrind run covers only the executions made"],
+        "technique": "Miri + valgrind memcheck + lock-step reference-model monitor (bytes / list+index) over exhaustive short and random long operation histories",
+        "level_text": "Each helper call and each cursor operation is compared step by step with a trivially correct model, under an interpreter that reports any out-of-bounds or invalid-str access.",
+        "level_note": "Trusted: Miri's Unix OsStr model; the naive reference. Histories are bounded (<= 40 ops, <= 3 + inserted items).",
+    },
 }
